@@ -293,7 +293,20 @@ def graph_queries():
     out["graph-opt"] = ([["graph", V("g"), A + [["opt", [tp(V("o"), Q, V("z"))]]]]], 0)
     out["graph-union-default"] = ([["union", A, [["graph", V("g"), A]]]], 0)
     out["graph-exists"] = (A + [["filter", ["exists", [["graph", V("g"), [tp(V("s"), Q, V("z"))]]]]]], 0)
+    # operators inside GRAPH ?g: evaluated once per named graph, against that graph
+    for nm, inner in GRAPH_INNER.items():
+        out["graph-inner-" + nm] = ([["graph", V("g"), inner]], 0)
     return out
+
+
+GRAPH_INNER = {
+    "exists": A + [["filter", ["exists", [tp(V("s"), Q, V("z"))]]]],
+    "notexists": A + [["filter", ["notexists", [tp(V("s"), Q, V("z"))]]]],
+    "minus": A + [["minus", [tp(V("s"), Q, V("z"))]]],
+    "union": [["union", A, [tp(V("s"), Q, V("o"))]]],
+    "sub": [["sub", ["s"], A, False], tp(V("s"), Q, V("z"))],
+    "bind-bound": A + [["opt", [tp(V("s"), Q, V("z"))]], ["filter", ["bound", "z"]]],
+}
 
 
 OPS2 = ["opt", "union", "minus", "group", "exists", "notexists", "filter", "bind", "sub"]
@@ -411,6 +424,9 @@ def obligations(tier, seed):
     for name, (group, nc) in graph_queries().items():
         for ds in data_shapes(group, 2, graphs=True)[: 2 if tier == "quick" else 4]:
             add(name, group, nc, "select", ds, 300, graphs=True)
+        if tier == "quick" and name.startswith("graph-inner-"):
+            # the same solution in two named graphs, the inner pattern matching in one of them only
+            add(name, group, nc, "select", data_shapes(group, 3, graphs=True)[1], 600, graphs=True)
         if tier == "thorough":
             for ds in data_shapes(group, 3, graphs=True):
                 add(name, group, nc, "select", ds, 900, graphs=True)
